@@ -12,7 +12,7 @@ MACHINE_OWNERS = {
     'machine-bad-op': ['C02'],
     'machine-harness-error': ['C02'],
 }
-CORR_WHATS = {'clip-mismatch', 'pattern', 'schedule-mismatch', 'truth-flag'}
+CORR_WHATS = {'clip-mismatch', 'pattern', 'schedule-mismatch', 'truth-flag', 'budget-table-mismatch'}
 ASSUME = {
     'C01': ['lb <= ub point-wise', 'user hooks keep positions inside the box', 'objective is called only through Function.pointer'],
     'C02': ['objective deterministic, finite, strictly below FLOAT_MAX (K6)', 'observer hooks'],
